@@ -68,6 +68,9 @@ def one_run(pid, d, tag, seed, tier, phases, skip, tr, budget, stats, race=False
                 v["note"] = "an executor panicked while holding a lock; everything touching that stripe then blocks for ever"
             viol.append(v)
             continue
+        if ph == "bigval":
+            viol += conclib.check_bigval(out / ph, stats)
+            continue
         viol += conclib.check_phase_dir(ph, out / ph, tr, budget, stats)
     for v in viol:
         v.update(seed=seed, tier=tier, race=race, tcp=tcp, phases=phases)
@@ -160,7 +163,7 @@ def run(ctx, pid, phases, title, extra_tb, rule):
                 import time as _t
                 t0 = _t.time()
                 i = 0
-                allph = ["counter", "list", "setnx", "multi", "setalg", "conserve", "book", "misc", "expiry", "pairs"]
+                allph = ["counter", "list", "setnx", "multi", "setalg", "conserve", "book", "misc", "expiry", "pairs", "bigval"]
                 while not viol and _t.time() - t0 < (300 if thorough else 45):
                     i += 1
                     viol += one_run(pid, d, "focus%d" % i, ctx.seed + 31 * i, "quick", allph, skip, tr,
